@@ -73,7 +73,7 @@ def gen_conn(rng, i, kinds, salt):
     from harness.server_support import common as K
     k = rng.choice(kinds)
     d = {"k": k, "tok": "T%dx%s%xZ" % (i, salt, rng.randrange(16 ** 4)), "rid": rng.choice([i + 1, 100 + i, "id%d" % i])}
-    if k in ("call", "call_kw", "call_v1", "notify", "no_clen", "bad_clen", "short_clen", "bad_path"):
+    if k in ("call", "call_kw", "call_v1", "notify", "no_clen", "bad_clen", "short_clen", "long_clen", "bad_path"):
         d["payload"] = rng.choice(PAYLOADS)
     if k == "batch":
         d["rid"] = 10 * (i + 1)
@@ -310,10 +310,12 @@ class Sockets(pipeline.Stream):
                 for r in range(per_config):
                     c += 1
                     n = [1, rng.randint(2, 6), rng.choice([8, 12, 16])][r % 3] if tier == "quick" else rng.choice([1, 2, 3, 4, 5, 6, 8, 10, 12, 16])
-                    kinds = KINDS_MODEL + ["slow", "slow"] + (KINDS_RAW if r % 2 else [])
+                    kinds = KINDS_MODEL + ["slow", "slow", "long_clen"] + (KINDS_RAW if r % 2 else [])
                     salt = "s%d" % c
                     conns = [gen_conn(rng, i, kinds, salt) for i in range(n)]
                     followups = [gen_conn(rng, 100 + i, ["call", "call", "notify", "invalid_json", "batch"], salt) for i in range(2)]
+                    if r % 2 == 0:
+                        followups.insert(0, gen_conn(rng, 104, ["long_clen"], salt))
                     followups.append(gen_conn(rng, 103, ["call"], salt))
                     cases.append({"server": kind, "pool": pool, "family": family, "conns": conns, "followups": followups,
                                   "msched": [rng.randrange(64) for _ in range(rng.randint(0, 120))]})
@@ -321,6 +323,10 @@ class Sockets(pipeline.Stream):
 
     def run_impl(self, case):
         return self.S.run_scenario(case)
+
+    def fatal(self, case, obs):
+        st = obs.get("stop", {})
+        return bool(obs.get("stuck_clients")) or st.get("shutdown_returned") is False or st.get("close_returned") is False
 
     def oracle(self, case, obs):
         K = self.K
